@@ -9,6 +9,9 @@ Require Import MV.C20.Model.
 Definition touched (o : op) : list Z :=
   match o with Add x => [x] | Union x y => [x; y] | _ => [] end.
 
+(* a history that begins with the constructor call UnionFind(l): the constructor adds each element of l *)
+Definition full (l : list Z) (h : list op) : list op := map Add l ++ h.
+
 (* present after history h: added by an Add or mentioned by a Union *)
 Definition present (h : list op) (x : Z) : Prop := In x (flat_map touched h).
 
